@@ -90,6 +90,9 @@ func genCOS(prop string, legs []string) func(seed uint64, run int, tier string) 
 			}
 		}
 		sc.Class = "system/" + sc.Leg
+		if sc.Leg == "dial" {
+			sc.Class = "standard/dial"
+		}
 
 		return sc
 	}
@@ -144,6 +147,8 @@ func runCOS(env *Env, s Scenario) {
 		runCOSOpenSSH(env, sc, dir)
 	case "raw":
 		runCOSRaw(env, sc, dir)
+	case "dial":
+		runCOSDial(env, sc, dir)
 	}
 }
 
@@ -397,6 +402,103 @@ func runCOSOpenSSH(env *Env, sc *COS, dir string) {
 	env.Probe("openssh-connected")
 }
 
+// runCOSDial: the standard transport's own dial (the branch the simulated legs replace through the
+// Dial seam) against the in-process server on loopback, reached by NAME: the known-hosts file is
+// consulted for the configured host, not for the address it resolves to.
+//   has   = the server's key is listed under the name only
+//   other = another key is listed under the name, the server's key under the address only
+func runCOSDial(env *Env, sc *COS, dir string) {
+	addrs, err := net.LookupHost("localhost")
+	if err != nil || len(addrs) == 0 {
+		env.Res.Inconclusive = fmt.Sprintf("localhost does not resolve here: %v", err)
+
+		return
+	}
+	ln, err := net.Listen("tcp", "127.0.0.1:0")
+	if err != nil {
+		env.Res.Inconclusive = "cannot listen on loopback: " + err.Error()
+
+		return
+	}
+	defer ln.Close()
+	port := ln.Addr().(*net.TCPAddr).Port
+	hostKey, otherKey := peer.NewHostKey(), peer.NewHostKey()
+	srv := &peer.SSHServer{HostKey: hostKey, Users: map[string]string{sc.User: sc.Password}, AuthKeys: map[string]ssh.PublicKey{}, Done: make(chan struct{})}
+	srv.Peer = peer.NewCLI([]*peer.Mode{{Name: "exec", Prompt: "srv#", Default: &peer.Reply{Out: []peer.Tok{{S: "ok"}}}}}, "exec", 1)
+	go func() {
+		c, err := ln.Accept()
+		if err != nil {
+			close(srv.Done)
+
+			return
+		}
+		srv.Serve(c)
+	}()
+	byName := knownhosts.Normalize(fmt.Sprintf("localhost:%d", port))
+	byAddr := knownhosts.Normalize(fmt.Sprintf("127.0.0.1:%d", port))
+	opts := []util.Option{
+		options.WithTransportType(transport.StandardTransport), options.WithPort(port), options.WithAuthUsername(sc.User),
+		options.WithAuthPassword(sc.Password), options.WithTimeoutOps(15 * time.Second), options.WithTimeoutSocket(10 * time.Second),
+	}
+	if !sc.Strict {
+		opts = append(opts, options.WithAuthNoStrictKey())
+	}
+	if sc.KnownHosts != "none" {
+		content := ""
+		switch sc.KnownHosts {
+		case "has":
+			content = knownhosts.Line([]string{byName}, hostKey.PublicKey()) + "\n"
+		case "other":
+			content = knownhosts.Line([]string{byName}, otherKey.PublicKey()) + "\n" + knownhosts.Line([]string{byAddr}, hostKey.PublicKey()) + "\n"
+		}
+		khPath := filepath.Join(dir, "known_hosts")
+		_ = os.WriteFile(khPath, []byte(content), 0o600)
+		opts = append(opts, options.WithSSHKnownHostsFile(khPath))
+	}
+	d, err := generic.NewDriver("localhost", opts...)
+	if err != nil {
+		env.Res.HarnessError = err.Error()
+
+		return
+	}
+	openErr := d.Open()
+	prompt := ""
+	if openErr == nil {
+		prompt, _ = d.GetPrompt()
+		_ = d.Close()
+	}
+	user, passwords, _, _, _, hsErr := srv.Snapshot()
+	env.Context = func() string {
+		return fmt.Sprintf("open err=%v prompt=%q server: user=%q passwords=%d handshake err=%v\n", openErr, prompt, user, len(passwords), hsErr)
+	}
+	want := !sc.Strict || sc.KnownHosts == "has"
+	if (openErr == nil) != want {
+		if openErr != nil && ErrClass(openErr) == "timeout" {
+			env.Res.Inconclusive = "real-time limit hit: " + openErr.Error()
+
+			return
+		}
+		env.Fail("dial-host-key-policy", "standard", "Open returned %v; strict=%v known-hosts=%s (listed for the configured name) => expected success=%v", openErr, sc.Strict, sc.KnownHosts, want)
+
+		return
+	}
+	if !want {
+		if len(passwords) > 0 {
+			env.Fail("password-offered-to-unverified-host", "standard", "the password reached a server whose key could not be verified")
+		}
+		env.Probe("dial-refused")
+
+		return
+	}
+	if user != sc.User || len(passwords) == 0 || passwords[len(passwords)-1] != sc.Password {
+		env.Fail("dial-identity", "standard", "server saw user %q and %d password offers", user, len(passwords))
+	}
+	if strings.TrimSpace(prompt) != "srv#" {
+		env.Fail("dial-session", "standard", "prompt after login %q", prompt)
+	}
+	env.Probe("dial-connected")
+}
+
 // runCOSRaw: byte transparency of the system transport over a real pty, against the stand-in in
 // raw mode.
 func runCOSRaw(env *Env, sc *COS, dir string) {
@@ -598,8 +700,8 @@ func osMeta(rule string, quick int) Meta {
 }
 
 func init() {
-	register(&Prop{ID: "C14S", Direct: true, Meta: osMeta("system-transport leg of C14: argv/environment of the child process as reported by a stand-in ssh binary over the 8 strict x known-hosts cells; the installed OpenSSH client against the in-process server over the same cells", 32),
-		Gen: genCOS("C14S", []string{"argv", "openssh"}), New: func() Scenario { return &COS{} }, Run: runCOS})
+	register(&Prop{ID: "C14S", Direct: true, Meta: osMeta("system-transport leg of C14: argv/environment of the child process as reported by a stand-in ssh binary over the 8 strict x known-hosts cells; the installed OpenSSH client against the in-process server over the same cells; the standard transport's own dial (the branch the Dial seam replaces in the simulated legs) to that server by name, keys listed for the name and/or the address", 48),
+		Gen: genCOS("C14S", []string{"argv", "openssh", "dial"}), New: func() Scenario { return &COS{} }, Run: runCOS})
 	register(&Prop{ID: "C16S", Direct: true, Meta: osMeta("system-transport leg of C16: byte transparency both ways over a real pty against a raw-mode stand-in peer, release of a blocked read on Close", 24),
 		Gen: genCOS("C16S", []string{"raw"}), New: func() Scenario { return &COS{} }, Run: runCOS})
 }
